@@ -110,6 +110,35 @@ func nestedConstructs() []construct {
 	add("throw new TypeError(zzz)", R, "zzz")
 	add("throw zzz", R, "zzz")
 	add(`eval((void 0).x)`, T, "void")
+	// operands whose conversion to a string / number would throw: the check that ES5
+	// places BEFORE the conversion must win (11.2.1 step 5 CheckObjectCoercible before
+	// step 6 ToString(key); 11.8.7 step 5 before ToString(lval); 11.2.2/11.2.3 callability)
+	const tkSetup = nestedSetup + " var tk = {toString: function(){ throw new RangeError(\"conv\"); }, valueOf: function(){ throw new RangeError(\"conv\"); }};"
+	addk := func(text, at string, kind ckind, group string) {
+		i := strings.Index(text, at)
+		if i < 0 {
+			panic("nested construct " + text + ": no " + at)
+		}
+		l = append(l, construct{id: "nested:" + text, setup: vars(tkSetup), text: text, anchor: i, kind: kind, class: T, group: group, nested: true})
+	}
+	addk("nl[tk]", "nl[", ckRef, "nested")
+	addk("u[tk]", "u[", ckRef, "nested")
+	addk("null[tk]", "null[", ckRef, "nested")
+	addk("u[tk] = 1", "u[", ckRef, "nested")
+	addk("nl[tk]()", "nl[", ckRef, "nested")
+	addk("new u[tk]", "u[", ckRef, "nested")
+	addk("delete nl[tk]", "nl[", ckRef, "nested")
+	addk("nl[tk] += 1", "nl[", ckRef, "nested")
+	addk("nl[tk]++", "nl[", ckRef, "nested")
+	addk("typeof nl[tk]", "nl[", ckRef, "nested")
+	addk("u[tk][tk]", "u[", ckRef, "nested")
+	addk("tk()", "tk", ckRef, "nested")
+	addk("new tk", "tk", ckRef, "nested")
+	addk("new tk(zzz)", "zzz", ckRef, "nested")
+	addk("(0, tk)()", "0", ckNonRef, "nested")
+	addk("tk in n", "tk", ckUnpos, "operator")
+	addk("n instanceof tk", "n inst", ckUnpos, "operator")
+	l[len(l)-4].class = R // new tk(zzz): the argument is evaluated first
 	return l
 }
 
